@@ -637,6 +637,30 @@ fn describe(sm: &SourceMap) -> String {
     items.join(" ")
 }
 
+/// hands out `first` bytes in the first read (when non-zero), then 1, 2, 3, 5, 7-byte reads for a while, then the rest
+struct PiecewiseReader<'a> {
+    data: &'a [u8],
+    pos: usize,
+    first: usize,
+}
+
+impl<'a> std::io::Read for PiecewiseReader<'a> {
+    fn read(&mut self, buf: &mut [u8]) -> std::io::Result<usize> {
+        let rest = self.data.len() - self.pos;
+        let want = if self.pos == 0 && self.first > 0 {
+            self.first
+        } else if self.pos < self.first + 48 {
+            [1usize, 2, 3, 5, 7][self.pos % 5]
+        } else {
+            rest
+        };
+        let n = want.min(rest).min(buf.len());
+        buf[..n].copy_from_slice(&self.data[self.pos..self.pos + n]);
+        self.pos += n;
+        Ok(n)
+    }
+}
+
 fn split_docs<'a>(t: &'a [&'a str]) -> Vec<&'a [&'a str]> {
     // top-level `{ … }` groups
     let mut out = vec![];
@@ -752,11 +776,30 @@ pub fn run(t: &[&str]) -> String {
                 return "err gen-vlq-mismatch".into();
             }
         }
+        let hdr_len = hdr.len();
         let mut bytes = hdr;
         bytes.extend_from_slice(json.as_bytes());
+        // the same bytes through the reader API, delivered in awkward pieces (the junk header as a read of its own,
+        // then a few short reads): both entry points must give the same map or fail together
+        let via_reader = sourcemap::decode(PiecewiseReader { data: &bytes, pos: 0, first: hdr_len });
         match decode_slice(&bytes) {
-            Ok(d) => d,
-            Err(e) => return format!("err {}", err_kind(&e)),
+            Ok(d) => {
+                match via_reader {
+                    Ok(dr) => {
+                        if dump(&dr) != dump(&d) {
+                            return "err reader-differs".into();
+                        }
+                    }
+                    Err(e) => return format!("err reader-only-{}", err_kind(&e)),
+                }
+                d
+            }
+            Err(e) => {
+                if via_reader.is_ok() {
+                    return "err slice-only".into();
+                }
+                return format!("err {}", err_kind(&e));
+            }
         }
     };
     match t[0] {
